@@ -222,8 +222,17 @@ package main
 //@ heapinv github.com/Cloud-Foundations/keymaster/cmd/keymasterd.RuntimeState (s *RuntimeState) :: s.Signer != nil ==> len(s.caCertDer) >= 1
 // plaintext of an armored, passphrase-protected file (uninterpreted; PGP itself is trusted)
 //@ ghost func pgpPlaintext(cipherText []byte, password []byte) []byte
+//@ import "golang.org/x/crypto/openpgp"
+//@ import "golang.org/x/crypto/openpgp/packet"
+//@ go:
+//@ func promptAnswers(p openpgp.PromptFunction, pw []byte) bool {
+//@ 	b, err := p(nil, true)
+//@ 	return err == nil && same(b, pw)
+//@ }
+//@ end
 //@ func pgpDecryptFileData
 //@   assume ret1 == nil ==> same(ret0, pgpPlaintext(cipherText, password))
+//@   atcall golang.org/x/crypto/openpgp.ReadMessage requires (r2 io.Reader, kr openpgp.KeyRing, prompt2 openpgp.PromptFunction, cfg *packet.Config) :: promptAnswers(prompt2, password)   #C09.the-passphrase-given-is-the-one-tried @C09
 //@   modifies nothing
 //@ func (*RuntimeState).loadSignersFromPemData
 //@   requires held(&state.Mutex)                                                   #C09.load-locked @C09
